@@ -305,7 +305,7 @@ def run_attempt(inp, tmpdir, good, fresh_by_policy, timeout=ATTEMPT_TIMEOUT):
     path = os.path.join(tmpdir, "attempt" + T.EXT[fmt])
     with open(path, "w") as f:
         f.write(inp["text"])
-    fresh = fresh_by_policy.get(inp["policy0"]) if inp.get("probe", True) else None
+    fresh = fresh_by_policy.get(inp["policy0"]) if inp.get("probe", True) else None  # None: probe unavailable
     st, val = forked(lambda: attempt_body(fmt, path, inp["policy0"], good, fresh), timeout)
     if st == "hang":
         st, val = forked(lambda: attempt_body(fmt, path, inp["policy0"], good, fresh), timeout * 3)
@@ -550,7 +550,13 @@ def shard_worker(jobs, deadline, shard_id):
                 from spydrnet.plugins import namespace_manager as nm
                 nm.default = p
                 return probe(good)
-            st, val = forked(fresh_body, 60)
+            st, val = forked(fresh_body, 90)
+            if st == "hang":
+                # the probe parses a good file of each format: a hang here is a hang on valid input
+                sr.spec_failure("probe.fresh_process_hangs", {"kind": "probe", "policy0": p},
+                                "the probe script (valid files only) did not finish in a fresh process")
+                fresh[p] = None
+                continue
             if st != "ok":
                 sr["obligations"].append(("fresh-process probe transcript computed", False, str(val)[-500:]))
                 return sr
@@ -645,3 +651,33 @@ def run(ctx):
     chunks = [jobs[i::nshards] for i in range(nshards)]
     deadline = time.time() + max(30.0, ctx.time_left() - ctx.scale(25, 120))
     shard.run_shards(ctx, shard_worker, [(c, deadline, i) for i, c in enumerate(chunks) if c])
+
+
+def search(ctx, diverging):
+    """neighbourhood search: every corruption class around the diverging inputs' texts, both initial
+    policies, plus a fresh batch of random texts (10x a quick batch, within the remaining budget)."""
+    from common.ctx import REPO
+    rng = ctx.rng("c15-search")
+    recs = []
+    for inp in diverging:
+        if inp.get("kind") == "attempt":
+            recs.append({"fmt": inp["fmt"], "origin": "search", "text": inp["text"]})
+        elif inp.get("kind") == "history":
+            for op in inp.get("ops", []):
+                if op.get("op") == "parse":
+                    recs.append({"fmt": op["fmt"], "origin": "search", "text": op["text"]})
+    recs += base_texts(rng, 10, REPO, dict(n_leaf=(1, 2), n_mid=(1, 2), max_ports=2, max_children=2))
+    jobs = []
+    for rec in recs[:40]:
+        for a in make_attempts(rec, rng, 300, 1.0, 3):
+            jobs.append(a)
+            b = dict(a)
+            b["policy0"] = "EDIF" if a["policy0"] == "DEFAULT" else "DEFAULT"
+            jobs.append(b)
+    small = [r for r in recs if len(r["text"]) < 5000]
+    for _ in range(100):
+        jobs.append(make_history(rng, small, rng.randint(6, 40)))
+    ctx.dist("search.jobs", len(jobs))
+    nshards = 32
+    deadline = time.time() + max(20.0, ctx.time_left() - 20)
+    shard.run_shards(ctx, shard_worker, [(jobs[i::nshards], deadline, 1000 + i) for i in range(nshards) if jobs[i::nshards]])
